@@ -102,4 +102,26 @@ CHECKS = {
    text='Every registered model on spec inputs, token sequences and pairs/triples of entity expressions joined by separators (adjacency is '
         'what makes sub-extractors collide); entities of one call sorted by start must satisfy end_i < start_(i+1).',
    note=BASE_NOTE),
+ 'C02': dict(engine='E3-scheduler', design_ref='7/C02',
+   technique='exhaustive call histories on a warm process (E2) + exhaustive <=1-preemption schedules of 2 threads under a controlled scheduler (E3), against a table from fresh interpreters',
+   text='Pool of 18 colliding calls. E2: every history of length <= 3 (thorough 4), every call after a cache reset, on a fresh thread and on a '
+        'reused worker thread. E3: 8 two-thread drivers (cold same key, cold two cultures, warm number/percentage, warm date-time with two '
+        'references / queries / option values, cold date-time + number) - every schedule with at most 1 preemption (thorough 2 on '
+        'the coarse drivers) at the driver granularity, 16k schedules in the quick tier. Every result must equal the entry computed for '
+        'that call alone in a fresh interpreter (table computed twice and compared).',
+   note=BASE_NOTE + 'Scheduling points are trace events (line level in the cache code, call level elsewhere); no true parallelism.'),
+ 'C15': dict(engine='E1-choice-tree', design_ref='7/C15',
+   technique='small-scope exhaustive enumeration of TIMEX / reference / candidate-set / constraint-set combinations against brute force over the calendar',
+   text='resolve(): 7 weekdays x 2 reference windows (mid-year, New Year) x 3 years, 7 units x 8 amounts, all months x 5 years incl. December, '
+        'well-formedness of every entry for 10 TIMEX forms; evaluate(): all candidate sets of size 1-2 from 9 candidates x all constraint '
+        'sets of size 1-2 (thorough 3) from 8 date ranges x 5 time-range choices, each result checked for definiteness, membership '
+        'in a constraint, instance-of-candidate, and completeness for weekday x single range.',
+   note=BASE_NOTE),
+ 'C17': dict(engine='E2-state-search', design_ref='7/C17',
+   technique='explicit-state exploration of the real model cache: all depth-1 requests and all request sequences to depth 2-3, reference routing/cache model in lock-step',
+   text='7,000+ depth-1 requests (16 getters x ~130 culture strings in 5 casings x fallback x target culture x eager flag x options) from the '
+        'cold cache, and every sequence of 2 (thorough 3) requests over a 144-request alphabet on long-lived recogniser objects; on every '
+        'transition: which registered constructor built the answer (or ValueError), object identity per cache key, and real cache key set '
+        '== reference model state.',
+   note=BASE_NOTE + 'Registered constructors are wrapped through the public model_factories dict to tag constructions.'),
 }
